@@ -45,6 +45,8 @@ func build(k, dpos, tokens int, lang string, truth int) *drv.Graph {
 			var c *drv.Cond
 			if lang == "xpath" {
 				c = drv.XPathConst(truth&(1<<(ci-1)) != 0)
+			} else if lang == "dataobj" {
+				c = drv.DataObjConst("d", fmt.Sprintf("c%d", ci), truth&(1<<(ci-1)) != 0)
 			} else {
 				c = drv.Var(fmt.Sprintf("c%d", ci))
 			}
@@ -64,6 +66,16 @@ func scn(k, dpos, tokens, bound int, lang string) *h.Scn {
 	var vs []variant
 	for truth := 0; truth < 1<<k; truth++ {
 		g := build(k, dpos, tokens, lang, truth)
+		if lang == "dataobj" {
+			body := "{"
+			for i := 1; i <= k; i++ {
+				if i > 1 {
+					body += ", "
+				}
+				body += fmt.Sprintf("\"c%d\": %v", i, truth&(1<<(i-1)) != 0)
+			}
+			g.Data = append(g.Data, drv.DataObj{ID: "do_d", Name: "d", Body: body + "}"})
+		}
 		vars := map[string]any{}
 		for i := 1; i <= k; i++ {
 			vars[fmt.Sprintf("c%d", i)] = truth&(1<<(i-1)) != 0
@@ -116,6 +128,9 @@ func init() {
 					out = append(out, scn(k, dpos, tokens, 0, "expr"))
 					if k <= 2 || thorough {
 						out = append(out, scn(k, dpos, tokens, 0, "xpath"))
+					}
+					if k <= 2 || (k == 3 && tokens == 1) || thorough {
+						out = append(out, scn(k, dpos, tokens, 0, "dataobj"))
 					}
 					if (k <= 2 && tokens <= 2) || (thorough && k <= 3) {
 						out = append(out, scn(k, dpos, tokens, 1, "expr"))
